@@ -269,6 +269,8 @@ class StackWorld(object):
       if cur[0] == 'ok':
         if cur[1] != 'echo:' + c.arg:
           self.v('C02.wrong-reply', 'call %d(%r) returned %r' % (c.idx, c.arg, cur[1]), stack=self.p['stack'])
+          self.v('C01.not-own-reply', 'call %d(%r) completed with %r, which is not the server\'s reply to that call'
+                 % (c.idx, c.arg, cur[1]), stack=self.p['stack'])
       else:
         exc = cur[1] if cur[0] == 'fail' else cur[2]
         if isinstance(exc, ScalesTimeout):
